@@ -1,5 +1,5 @@
 /* C15: secp256k1_ecdsa_anti_exfil_signer_commit.  The nonce loop is closed by the loop contract of
- * hooks/C15_signer_commit_loop.diff; its invariant is strengthened from this harness (macro below) by "once a nonce
+ * the unit table (engine/units/C15.py, no /repo edit); its invariant says "attempt counter == number of RFC 6979 calls, and once a nonce
  * was accepted, k is a non-zero reduced scalar whose bytes are the most recent RFC 6979 output" (checked: base + step).
  * Replaced: nonce_function_rfc6979_impl (contract with the expected call shape as PRECONDITION; body: C01.rfc6979),
  * ecmult_gen / ge_set_gej (assumed, slot-0 logs).  Real: scalar_set_b32_seckey, opening_save, the loop.
@@ -12,11 +12,6 @@
 #define LOG_ECMULT_GEN
 #define LOG_GE_SET_GEJ
 #include "assumed_C15.h"
-#define SECP256K1_VERIF_SIGN_LOOP_GHOST NONCE_FN_GHOST
-#define SC_LT_N_EXPR(a) ((a).d[3] < 0xFFFFFFFFFFFFFFFFULL || ((a).d[2] < 0xFFFFFFFFFFFFFFFEULL || ((a).d[2] == 0xFFFFFFFFFFFFFFFEULL && \
-    ((a).d[1] < 0xBAAEDCE6AF48A03BULL || ((a).d[1] == 0xBAAEDCE6AF48A03BULL && (a).d[0] < 0xBFD25E8CD0364141ULL)))))
-#define SECP256K1_VERIF_SIGNER_COMMIT_INV && (is_nonce_valid == 0 || (is_nonce_valid == 1 && SC_LT_N_EXPR(k) && (k.d[0] | k.d[1] | k.d[2] | k.d[3]) != 0 && \
-    (unsigned char)(k.d[3 - g_nk / 8] >> (8 * (7 - g_nk % 8))) == g_nf_out_byte))
 #include "src/secp256k1.c"
 #include "post.h"
 
